@@ -108,7 +108,8 @@ TEXTS = {
                    "by the real multi-tree reader goroutine (under the deterministic scheduler) and by the single-tree reader from simulated chunked streams with varying "
                    "buffer sizes, zero-length reads, blank lines, CRLF and a malformed tree at any position. Oracle: reference-model view (shape, names, lengths, supports) "
                    "after each hop equals the source; ids 0,1,2,...; trees 0..j-1 then exactly one error record for a malformed tree at j; single reader = first record of "
-                   "the multi reader for Newick, Nexus, PhyloXML and Nextstrain. Sampling: evidence, not proof.",
+                   "the multi reader for Newick, Nexus, PhyloXML and Nextstrain; part of the hops are repeated through `gotree reformat nexus|phyloxml|newick` run in-process. Sampling: "
+                   "evidence, not proof.",
         design_ref="§4 C13",
         level_note="The fault extension 'read error in mid-stream must not silently drop trees' of DESIGN §4 is not part of this check (the statement quantifies over well-formed inputs). "
                    "Inner node names are kept unique within a tree. The input dimension is sampled. go1.26.8 runtime.",
@@ -127,7 +128,8 @@ TEXTS = {
     "C08": dict(
         level_text="Seeded simulation of the real Compare / CompareWeighted worker pools (fed by the real reader goroutine over a chunked simulated stream, or by a "
                    "producer that places a taxon-mismatched tree at any position) under the deterministic scheduler; every record is checked against exact set "
-                   "algebra on the split maps of an independent reference model, in both directions (swap) and through the pairwise CommonEdges variant. "
+                   "algebra on the split maps of an independent reference model, in both directions (swap), through the pairwise CommonEdges variant and, for a quarter of the "
+                   "cases, through what `gotree compare trees [-l] [--binary] [--weighted]` prints when run in-process inside the scheduler (counts, identical flag, weighted RF and KF). "
                    "Sampling: a clean run is evidence, not proof.",
         design_ref="§4 C08", level_note=PIPE_NOTE,
         technique="deterministic simulation: seeded scheduler + channel fault injection over the comparison pipeline, oracle = reference-model split algebra"),
@@ -135,14 +137,14 @@ TEXTS = {
         level_text="Seeded simulation of reader goroutine -> Consensus under the deterministic scheduler, with chunked streams and a faulty record (foreign / missing / "
                    "extra taxon, duplicate tip, malformed, error record) at any position, collections built so that frequencies hit the threshold exactly, dyadic "
                    "thresholds and out-of-range ones; the consensus text is compared with a naive frequency table over an independent reference model, and again "
-                   "after re-ordering / re-rooting / rotating the inputs. Sampling: evidence, not proof.",
+                   "after re-ordering / re-rooting / rotating the inputs; a quarter of the cases also go through `gotree compute consensus -f` run in-process. Sampling: evidence, not proof.",
         design_ref="§4 C09", level_note=PIPE_NOTE,
         technique="deterministic simulation: seeded scheduler + stream/channel fault injection over the consensus pipeline, oracle = naive frequency table"),
     "C10": dict(
         level_text="Seeded simulation of the real FBP and TBE worker pools under the deterministic scheduler with a taxon-mismatched bootstrap tree at any position; "
                    "supports read from the annotated reference tree are compared with brute-force split membership and Hamming/transfer distances on an independent "
                    "reference model, plus range, TBE>=FBP, TBE=1<=>FBP=1, no tip support, and invariance under re-ordering / re-rooting / rotation of the bootstrap "
-                   "trees. Sampling: evidence, not proof.",
+                   "trees; a quarter of the cases also go through `gotree compute support fbp|tbe` run in-process. Sampling: evidence, not proof.",
         design_ref="§4 C10", level_note=PIPE_NOTE + " Excluded: the branch above a root child whose split is trivial (n-1|1) - the statement speaks of inner branches.",
         technique="deterministic simulation: seeded scheduler + channel fault injection over the bootstrap-support pipelines, oracle = brute-force transfer distance"),
     "C11": dict(
